@@ -16,7 +16,7 @@ def run_config(chk, tier, cfgname):
               "backward_barrier_weak", "weak_is_dead"):
         typestate.apply(chk, t + "-table", t, aspects=("safety", "weak", "once"))
     typestate.apply(chk, "sweep-weak-rows", "sweep_one", only=lambda r: r.pre.get("cursor") in ("WW", "W"), aspects=("weak", "once"))
-    typestate.report_automaton(chk, ["S5", "S6"])
+    typestate.report_automaton(chk, ["S5", "S6", "S1w"])
     prog.edges()
     for q in ("gc_weak::GcWeak::upgrade", "gc_weak::GcWeak::is_dropped", "gc_weak::GcWeak::is_dead",
               "gc_weak::GcWeak::ptr_eq"):
